@@ -1,3 +1,4 @@
 import Driver.Shm
-/-! Model driver for C42: the shared-memory channel-table transition system (see `Driver/Shm.lean`). -/
-def main : IO Unit := Driver.run Driver.Shm.drvStep (AranyaV.Shm.init 0 0)
+/-! Model driver for C42: the shared-memory channel-table transition system and the in-memory
+state model (see `Driver/Shm.lean`). -/
+def main : IO Unit := Driver.run Driver.Shm.drvStep Driver.Shm.drvInit
